@@ -37,6 +37,11 @@ type storeState struct {
 	completedSnapshots []*jobSnapshot
 	pendingSnapshot    *jobSnapshot
 	checkpointID       uint64 // The last used, monotonically increasing checkpoint ID
+
+	// Retained-checkpoint lists that still have to be sent to the subscriber, in
+	// the order they were decided, and whether announceRetained is running.
+	retainedToAnnounce [][]uint64
+	announcing         bool
 }
 
 type NewStoreParams struct {
@@ -235,9 +240,11 @@ func (s *Store) finishSnapshotAsync(snap *jobSnapshot) (uri string, err error) {
 
 		// Notify subscribers of new list of checkpoints to retain (just the completed one)
 		if s.retainedCheckpointsUpdated != nil && len(retained) == 1 {
-			go func() {
-				s.retainedCheckpointsUpdated <- []uint64{snap.id}
-			}()
+			s.state.retainedToAnnounce = append(s.state.retainedToAnnounce, []uint64{snap.id})
+			if !s.state.announcing {
+				s.state.announcing = true
+				go s.announceRetained()
+			}
 		}
 	}
 
@@ -255,6 +262,25 @@ func (s *Store) finishSnapshotAsync(snap *jobSnapshot) (uri string, err error) {
 		s.log.Info("store wrote savepoint", "uri", spURI)
 	}
 	return uri, nil
+}
+
+// announceRetained sends the queued retained-checkpoint lists to the subscriber
+// one at a time, in the order they were decided. A goroutine per notification
+// would let an older list overtake a newer one.
+func (s *Store) announceRetained() {
+	for {
+		s.stateMu.Lock()
+		if len(s.state.retainedToAnnounce) == 0 {
+			s.state.announcing = false
+			s.stateMu.Unlock()
+			return
+		}
+		ids := s.state.retainedToAnnounce[0]
+		s.state.retainedToAnnounce = s.state.retainedToAnnounce[1:]
+		s.stateMu.Unlock()
+
+		s.retainedCheckpointsUpdated <- ids
+	}
 }
 
 // CurrentCheckpoint returns the latest checkpoint from memory.
